@@ -115,7 +115,19 @@ impl Ctx {
             _ => json!(12),
         };
         let one = json!({"keyid": weird_keyid(d["sig_keyid"].as_str().unwrap(), &good_id), "sig": sigval});
+        let second = guarded(|| {
+            let w = MetadataWrapper::try_from_bytes(signed.to_string().as_bytes()).ok()?;
+            let mb = Metablock::new(w, &[self.km.sk("k2")]).ok()?;
+            let v = serde_json::to_value(&mb).ok()?;
+            Some(v["signatures"][0].clone())
+        })
+        .ok()
+        .flatten();
         let sigs = match d["signatures"].as_str().unwrap() {
+            "two_signers" => match second {
+                Some(s2) => json!([one, s2]),
+                None => json!([one]),
+            },
             "one" => json!([one]),
             "none" => json!([]),
             "many" => json!(vec![one.clone(); 50]),
@@ -273,8 +285,14 @@ impl Ctx {
                 let inner = serde_json::from_str::<Value>(&text).unwrap()["signed"].to_string();
                 let r2 = guarded(|| MetadataWrapper::try_from_bytes(inner.as_bytes()).is_ok());
                 call("parse_wrapper", cls(&r2));
+                // (the block is checked with one key, and with two keys of which only one signature is asked for)
                 let r3 = guarded(|| match serde_json::from_str::<Metablock>(&text) {
-                    Ok(b) => b.verify(1, [self.km.pk("k1")]).is_ok(),
+                    Ok(b) => {
+                        let one = b.verify(1, [self.km.pk("k1")]).is_ok();
+                        let two = b.verify(1, [self.km.pk("k1"), self.km.pk("k2")]).is_ok();
+                        let _ = b.verify(2, [self.km.pk("k2"), self.km.pk("k1")]).is_ok();
+                        one || two
+                    }
                     Err(_) => false,
                 });
                 call("block_verify", cls(&r3));
